@@ -175,7 +175,11 @@ def bfs(kind, tier, max_len, on_transition=None):
     seen[fp(init)] = (init, ())
     frontier = [(init, ())]
     ntrans = 0
+    bfs.last_fixpoint = False
     for _ in range(max_len):
+        if not frontier:
+            bfs.last_fixpoint = True      # no new state at the previous level: graph fully explored
+            break
         nxt = []
         for s, chain in frontier:
             for method, args in alpha:
@@ -190,6 +194,8 @@ def bfs(kind, tier, max_len, on_transition=None):
                         seen[k] = (out[1], ch)
                         nxt.append((out[1], ch))
         frontier = nxt
+    if not frontier:
+        bfs.last_fixpoint = True
     return seen, ntrans
 
 
